@@ -452,6 +452,7 @@ func h5Sequential[T num, A arr[T, A]](k kit[T, A], rc *RunCtx, o *Outcome, ctl *
 		return v
 	}
 	var log []string
+	bigCreated := false
 	var selPool [][][]int
 	o.Sample = map[string]interface{}{"mode": map[bool]string{false: "sequential", true: "faulted"}[faults], "element_type": k.name, "operations": nOps}
 	// a string dataset for LoadText
@@ -540,6 +541,12 @@ func h5Sequential[T num, A arr[T, A]](k kit[T, A], rc *RunCtx, o *Outcome, ctl *
 				shape := drawShape(w, false)
 				if md != nil && w.Bool(50) {
 					shape = append([]int(nil), md.shape...)
+				}
+				if md == nil && !faults && !bigCreated && w.Choose(25) == 24 {
+					// a dataset of a few megabytes (where chunk layouts and buffers come into play)
+					shape = []int{300 + w.Choose(100), 1000 + w.Choose(24)}
+					bigCreated = true
+					o.probe("dataset_of_more_than_a_megabyte_created")
 				}
 				curOp = fmt.Sprintf("Create(%s:%s,%v)", fn, path, shape)
 				log = append(log, curOp)
@@ -650,7 +657,14 @@ func h5Sequential[T num, A arr[T, A]](k kit[T, A], rc *RunCtx, o *Outcome, ctl *
 				log = append(log, curOp)
 				src := makeSource(k, layout, shape, vals, w)
 				o.probe("source_layout:" + layoutNames[layout])
-				err := k.ref(fn, path, nil).WriteSlice(src, loc)
+				// the reference may still carry the selection an earlier Load was made with: writers
+				// place the block at loc in the dataset, whatever the selection says
+				var wsel [][]int
+				if md != nil && md.str == nil && len(md.shape) > 0 && product(md.shape) > 0 && w.Bool(30) {
+					wsel = drawSelNoRemainder(w, md.shape)
+					o.probe("writeslice_through_a_reference_with_a_selection")
+				}
+				err := k.ref(fn, path, wsel).WriteSlice(src, loc)
 				var offs []int
 				if md != nil && md.str == nil {
 					offs = blockOffsets(md.shape, shape, loc)
